@@ -186,3 +186,57 @@ def next_alternative(ctx, res):
         res.oblige(nxt > 0, f"validate_trait_complex[case{k}]:has-next",
                    CREL, f"case {k} never falls through to the next "
                    f"alternative")
+
+
+@rule("C03.tuple-check-contract", ["C03", "C01"],
+      "validate_trait_tuple_check reports 'no match' as NULL *without* an "
+      "exception: on every path on which a member validator rejected an item "
+      "the function asks whether the pending exception is a TraitError and "
+      "clears it if so (its callers - the Tuple validator and the tuple arm "
+      "of the compound validator - take a pending exception for a real error "
+      "and do not try the next alternative)")
+def tuple_check_contract(ctx, res):
+    from ..csym import cached_paths, flush_paths
+    facts = get_cfacts(ctx)
+    fname = "validate_trait_tuple_check"
+    paths = cached_paths(ctx, facts, fname)
+    flush_paths(ctx)
+    if not paths:
+        raise AnalysisError(f"{fname}: no paths")
+    n = 0
+    bad = None
+    for p in paths:
+        if p.outcome != ("RETURN", "0"):
+            continue
+        failed = None
+        asked = cleared = None
+        for it in p.trace:
+            if it[0] == "atom" and isinstance(it[2], bool):
+                t, truth = it[1], it[2]
+                if "->validate(" in t and ((t.startswith("(0 == ") and truth)
+                                           or (t.startswith("(0 != ")
+                                               and not truth)):
+                    failed = t
+                if failed and t.startswith("PyErr_ExceptionMatches("):
+                    asked = truth
+            elif it[0] == "call" and failed and it[1] == "PyErr_Clear":
+                cleared = True
+        if failed is None:
+            continue
+        n += 1
+        ok = asked is False or (asked is True and cleared)
+        if not ok and bad is None:
+            bad = p
+    res.instance(fname, facts.loc(facts.func(fname)), rejecting_paths=n)
+    if n == 0:
+        raise AnalysisError(f"{fname}: no path on which a member rejects")
+    res.oblige(bad is None, f"{fname}:rejection-leaves-exception",
+               f"{CREL}:{bad.lines[-1] if bad else 0}",
+               f"{fname} can return NULL after a member validator rejected "
+               f"an item without having cleared (or even examined) the "
+               f"pending TraitError: the tuple arm of a compound trait then "
+               f"aborts with that error instead of trying the next "
+               f"alternative, although the Python validate accepts the value",
+               [f"{CREL}:{l}" for l in dict.fromkeys(bad.lines) if l]
+               if bad else None)
+    res.floor(1)
